@@ -29,10 +29,10 @@ from vf import gen, ref, si, engines, simhelp
 from vf.common import Run, seed, tier, use_repo, chash, SCRATCH
 from vf.sandbox import pmap
 
-ALPHA = ["setup1", "setup2", "iterate", "iterate_n3", "iterate_n0", "run0", "sample", "get_progress",
+ALPHA = ["setup1", "setup2", "setup3", "iterate", "iterate_n3", "iterate_n0", "run0", "sample", "get_progress",
          "is_complete", "get_output", "finalize"]
-AFTER_RELEASE = {"setup1", "setup2", "finalize", "is_complete"}
-NATIVE_STATE_CHANGING = {"setup1", "setup2", "iterate", "iterate_n3", "run0", "sample", "finalize"}
+AFTER_RELEASE = {"setup1", "setup2", "setup3", "finalize", "is_complete"}
+NATIVE_STATE_CHANGING = {"setup1", "setup2", "setup3", "iterate", "iterate_n3", "run0", "sample", "finalize"}
 
 _REF = {}
 
@@ -49,6 +49,13 @@ def fixed_script(kind_, which):
         state = [9, 0, 4, 2, 0, 3, 1, 0]
         system = st.RDSystem(net, space, state=state)
         pol, K = "on_iteration", 4
+    elif which == 3:
+        # time-point sampling with an explicit t_max LATER than the last requested time: the run goes on after the last record
+        net = st.RDNetwork(species=[st.Species("P", D=0.6, density=0), st.Species("Q", D=0.0, density=0)],
+                           reactions=[st.Reaction("P -> Q", kf=0.4)])
+        system = st.RDSystem(net, st.RDGridSpace(w=3, h=1, d=1, cell_vol=2.0, boundary_conditions={"x": "periodical"}),
+                             state=[6, 0, 8, 1, 0, 0])
+        pol, K = "on_t_sample", 4
     else:
         net = st.RDNetwork(species=[st.Species("X", D=0.8, density=0)], reactions=[st.Reaction("X -> ", kf=0.3)])
         nodes = [st.RDGraphSpaceNode(volume=1.0), st.RDGraphSpaceNode(volume=2.0), st.RDGraphSpaceNode(volume=0.5)]
@@ -59,8 +66,8 @@ def fixed_script(kind_, which):
         # choose t_max so that a handful of events happen; the seed is searched so that completion needs K steps
         hint = os.environ.get("VERIF_C10_GSEED%d" % which)
         for sd_ in ([int(hint)] if hint else []) + list(range(1, 400)):
-            sc = st.RDScript(system, t_sample=[0], t_max=0.05 if which == 1 else 0.03, time_step=0.01, sampling_policy=pol,
-                             rng_seed=sd_, init_state_processing="none")
+            sc = st.RDScript(system, t_sample=[0] if which != 3 else [0, 0.004], t_max={1: 0.05, 2: 0.03, 3: 0.04}[which], time_step=0.01,
+                             sampling_policy=pol, rng_seed=sd_, init_state_processing="none")
             e = engines.get(kind_)
             e.setup(sc)
             k = 0
@@ -71,14 +78,14 @@ def fixed_script(kind_, which):
                 return sc
         raise RuntimeError("no seed found for fixed gillespie script")
     dt = 0.01
-    return st.RDScript(system, t_sample=[0], t_max=(K - 0.5) * dt, time_step=dt, sampling_policy=pol, rng_seed=7,
-                       init_state_processing="none")
+    return st.RDScript(system, t_sample=[0] if which != 3 else [0, 1.5 * dt], t_max=(K - 0.5) * dt, time_step=dt, sampling_policy=pol,
+                       rng_seed=7, init_state_processing="none")
 
 
 def find_gillespie_seeds(case):
     use_repo()
     engines.install()
-    return {w: fixed_script("gillespie", w).rng_seed for w in (1, 2)}
+    return {w: fixed_script("gillespie", w).rng_seed for w in (1, 2, 3)}
 
 
 def raw_state(lib, size):
@@ -108,7 +115,21 @@ def reference_of(kind_, which):
             break
     e.finalize()
     tmax = float(sc.t_max.convert(sc.units_system).value)
-    _REF[key] = {"script": sc, "T": T, "X": X, "K": K, "size": size, "policy": sc.sampling_policy, "t_max": tmax}
+    pol = sc.sampling_policy
+    if pol == "on_iteration":
+        psteps = set(range(len(T)))
+    elif pol == "on_t_sample":
+        # contract: record at the first step at or after each requested time, one record per step
+        taus = [float(x) for x in sc.t_sample.convert(sc.units_system).value]
+        psteps, pos = set(), 0
+        for k_, tv in enumerate(T):
+            if pos < len(taus) and tv >= taus[pos]:
+                psteps.add(k_)
+                while pos < len(taus) and tv >= taus[pos]:
+                    pos += 1
+    else:
+        psteps = set()
+    _REF[key] = {"script": sc, "T": T, "X": X, "K": K, "size": size, "policy": pol, "t_max": tmax, "policy_steps": psteps}
     return _REF[key]
 
 
@@ -122,7 +143,7 @@ class Model:
 
     def setup(self, which, refd):
         self.live, self.released, self.which, self.k = True, False, which, 0
-        self.records = [0] if refd["policy"] == "on_iteration" else []
+        self.records = [0] if 0 in refd["policy_steps"] else []
 
 
 def play(kind_, seq, eng, model, refs, bad, counts, ctx, observe=None):
@@ -141,7 +162,7 @@ def play(kind_, seq, eng, model, refs, bad, counts, ctx, observe=None):
         n_before = lib.engineexport_get_nsamples() if model.live else None
         was_complete = model.live and model.k == R["K"]
         ret = None
-        if call in ("setup1", "setup2"):
+        if call in ("setup1", "setup2", "setup3"):
             which = int(call[-1])
             eng.setup(refs[which]["script"])
             model.setup(which, refs[which])
@@ -193,7 +214,7 @@ def play(kind_, seq, eng, model, refs, bad, counts, ctx, observe=None):
             return
         n_after = lib.engineexport_get_nsamples()
         adv = k_now - model.k
-        if call in ("setup1", "setup2"):
+        if call in ("setup1", "setup2", "setup3"):
             if k_now != 0:
                 fail("clock not at 0 after set-up", pos, call, t=t_now)
             if n_after != len(model.records):
@@ -212,8 +233,8 @@ def play(kind_, seq, eng, model, refs, bad, counts, ctx, observe=None):
         else:
             if adv != 0:
                 fail("a call that runs no iteration moved the simulation", pos, call, advanced=adv)
-        if adv > 0 and R["policy"] == "on_iteration":
-            model.records.extend(range(model.k + 1, k_now + 1))
+        if adv > 0:
+            model.records.extend(k_ for k_ in range(model.k + 1, k_now + 1) if k_ in R["policy_steps"])
         model.k = k_now
         if call == "sample":
             if n_after == len(model.records) + 1:
@@ -263,7 +284,7 @@ def run_batch(case):
     use_repo()
     engines.install()
     kind_ = case["kind"]
-    refs = {1: reference_of(kind_, 1), 2: reference_of(kind_, 2)}
+    refs = {1: reference_of(kind_, 1), 2: reference_of(kind_, 2), 3: reference_of(kind_, 3)}
     L = case["length"]
     prefix = case["prefix"]
     prog = case.get("progress_file")
@@ -292,7 +313,7 @@ def run_one_sequence(case):
     use_repo()
     engines.install()
     kind_ = case["kind"]
-    refs = {1: reference_of(kind_, 1), 2: reference_of(kind_, 2)}
+    refs = {1: reference_of(kind_, 1), 2: reference_of(kind_, 2), 3: reference_of(kind_, 3)}
     bad, counts = [], {}
     play(kind_, case["seq"], engines.get(kind_), Model(), refs, bad, counts, {"case": case})
     return {"bad": bad, "counts": counts}
@@ -308,7 +329,7 @@ def gen_two_engine_seq(r, n):
     for _ in range(n):
         who = r.choice("AB")
         if not live[who]:
-            c = r.choice(["setup1", "setup2", "setup1", "finalize", "is_complete"]) if started[who] else r.choice(["setup1", "setup2"])
+            c = r.choice(["setup1", "setup2", "setup3", "finalize", "is_complete"]) if started[who] else r.choice(["setup1", "setup2", "setup3"])
         else:
             c = r.choice(ALPHA)
         if c.startswith("setup"):
@@ -320,7 +341,7 @@ def gen_two_engine_seq(r, n):
 
 
 def _apply(eng, call, refs):
-    if call in ("setup1", "setup2"):
+    if call in ("setup1", "setup2", "setup3"):
         eng.setup(refs[int(call[-1])]["script"])
         return "ok"
     if call == "iterate":
@@ -354,7 +375,7 @@ def run_two_engines(case):
     r = gen.rng_for(case["seed"], "C10two", case["idx"])
     kinds = {"A": r.choice(engines.KINDS), "B": r.choice(engines.KINDS)}
     seq = gen_two_engine_seq(r, r.randint(6, 40))
-    refs = {w: {1: reference_of(kinds[w], 1), 2: reference_of(kinds[w], 2)} for w in "AB"}
+    refs = {w: {1: reference_of(kinds[w], 1), 2: reference_of(kinds[w], 2), 3: reference_of(kinds[w], 3)} for w in "AB"}
     prog = case.get("progress_file")
     # projections first (single-engine behaviour), then the interleaving
     alone = {}
@@ -526,7 +547,7 @@ def main():
     thorough = tier() == "thorough"
     L = 4 if thorough else 3
     run = Run("C10",
-              rule="(A) EXHAUSTIVE: all call sequences of length %d after an initial setup(s1|s2) over an 11-call alphabet, on "
+              rule="(A) EXHAUSTIVE: all call sequences of length %d after an initial setup(s1|s2|s3) over a 12-call alphabet, on "
                    "one engine object, for each of the 3 engine kinds (sequences calling anything but setup/finalize/is_complete "
                    "on a released engine are pruned), plus random sequences of length 5..12; (B) random interleavings of up to 40 calls over two engine objects of "
                    "random kinds, compared call by call with each engine's projection run alone; (C) set-up + loop termination "
@@ -551,7 +572,7 @@ def main():
         # ---------------- (A) ----------------
         cases = []
         for kind_ in engines.KINDS:
-            for first in ("setup1", "setup2"):
+            for first in ("setup1", "setup2", "setup3"):
                 for prefix in itertools.product(ALPHA, repeat=2):
                     if not seq_valid([first] + list(prefix)):
                         continue
@@ -564,7 +585,7 @@ def main():
         long_cases = []
         for i in range(30000 if thorough else 2500):
             while True:
-                sq = [rr0.choice(["setup1", "setup2"])] + [rr0.choice(ALPHA) for _ in range(rr0.randint(5, 12))]
+                sq = [rr0.choice(["setup1", "setup2", "setup3"])] + [rr0.choice(ALPHA) for _ in range(rr0.randint(5, 12))]
                 if seq_valid(sq):
                     break
             long_cases.append({"kind": rr0.choice(engines.KINDS), "seq": sq})
@@ -739,7 +760,7 @@ def main():
         import shutil
         shutil.rmtree(pdir, ignore_errors=True)
     run.exhaustive = False
-    run.note("exhaustive_part", "(A) all %d-call sequences over the 11-call alphabet after setup(s1|s2), per engine kind" % L)
+    run.note("exhaustive_part", "(A) all %d-call sequences over the 12-call alphabet after setup(s1|s2|s3), per engine kind" % L)
     return run.finish()
 
 
